@@ -24,6 +24,13 @@ const (
 	lvlCustErr   = slog.Level(30) // registered for the error device
 	lvlCustPlain = slog.Level(31) // registered, normal device
 	lvlCustGated = slog.Level(32) // registered, gated like Error but NOT for the error device: normal writers
+	// the error device is a property of the registration alone: not of the numeric value (beyond 63, negative) and not of
+	// what the level is gated as
+	lvlCustErrBig  = slog.Level(1000) // registered for the error device, value above any machine word of flags
+	lvlCustErr64   = slog.Level(64)   // registered for the error device
+	lvlCustErrNeg  = slog.Level(-5)   // registered for the error device, negative value
+	lvlCustErrInfo = slog.Level(33)   // registered for the error device although it is gated like Info
+	lvlCustPlain65 = slog.Level(65)   // registered, normal device
 )
 
 type fdCapture struct {
@@ -206,7 +213,7 @@ func (m *wmodel) apply(o wop) {
 
 func errorClass(l slog.Level) bool {
 	switch l {
-	case slog.PanicLevel, slog.FatalLevel, slog.ErrorLevel, slog.WarnLevel, slog.FailLevel, lvlCustErr:
+	case slog.PanicLevel, slog.FatalLevel, slog.ErrorLevel, slog.WarnLevel, slog.FailLevel, lvlCustErr, lvlCustErrBig, lvlCustErr64, lvlCustErrNeg, lvlCustErrInfo:
 		return true
 	}
 	return false
@@ -268,6 +275,11 @@ func newC03env() (*c03env, error) {
 	_ = slog.RegisterLevel(lvlCustErr, "custerr", slog.RegWithTreatedAsLevel(slog.ErrorLevel), slog.RegWithPrintToErrorDevice(true))
 	_ = slog.RegisterLevel(lvlCustPlain, "custplain", slog.RegWithTreatedAsLevel(slog.InfoLevel))
 	_ = slog.RegisterLevel(lvlCustGated, "custgated", slog.RegWithTreatedAsLevel(slog.ErrorLevel))
+	_ = slog.RegisterLevel(lvlCustErrBig, "custerrbig", slog.RegWithPrintToErrorDevice(true))
+	_ = slog.RegisterLevel(lvlCustErr64, "custerr64", slog.RegWithTreatedAsLevel(slog.WarnLevel), slog.RegWithPrintToErrorDevice(true))
+	_ = slog.RegisterLevel(lvlCustErrNeg, "custerrneg", slog.RegWithTreatedAsLevel(slog.WarnLevel), slog.RegWithPrintToErrorDevice(true))
+	_ = slog.RegisterLevel(lvlCustErrInfo, "custerrinfo", slog.RegWithTreatedAsLevel(slog.InfoLevel), slog.RegWithPrintToErrorDevice(true))
+	_ = slog.RegisterLevel(lvlCustPlain65, "custplain65", slog.RegWithTreatedAsLevel(slog.InfoLevel))
 	slog.AddFlags(slog.LnoInterrupt)
 	slog.RemoveFlags(slog.Lcaller)
 	return e, nil
@@ -301,6 +313,18 @@ func (e *c03env) applyMethod(l *slog.Entry, o wop) {
 		l.ResetLevelWriter(o.lvl)
 	case "ResetLevelWriters":
 		l.ResetLevelWriters()
+	case "DeriveWithWriter", "DeriveWithErrorWriter":
+		// a child derived with the With form and reconfigured afterwards: the receiver's configuration stays what it was
+		var ch *slog.Entry
+		if o.name == "DeriveWithWriter" {
+			ch = l.WithWriter(w)
+		} else {
+			ch = l.WithErrorWriter(w)
+		}
+		ch.AddWriter(e.pool[(o.w+1)%5])
+		ch.SetErrorWriter(e.pool[(o.w+2)%5])
+		ch.AddLevelWriter(slog.InfoLevel, e.pool[(o.w+3)%5])
+		ch.SetWriter(e.pool[(o.w+4)%5])
 	}
 }
 
@@ -363,7 +387,7 @@ var c03forms = func() []c03form {
 }()
 
 var probeSevs = []slog.Level{slog.InfoLevel, slog.ErrorLevel, slog.DebugLevel, slog.WarnLevel, slog.TraceLevel, slog.PanicLevel, slog.AlwaysLevel, slog.FatalLevel,
-	slog.OKLevel, slog.FailLevel, slog.SuccessLevel, lvlCustErr, lvlCustPlain, lvlCustGated, slog.Level(88)}
+	slog.OKLevel, slog.FailLevel, slog.SuccessLevel, lvlCustErr, lvlCustPlain, lvlCustGated, slog.Level(88), lvlCustErrBig, lvlCustErr64, lvlCustErrNeg, lvlCustErrInfo, lvlCustPlain65}
 
 type c03viol struct{ clause, detail string }
 
@@ -548,7 +572,7 @@ func (e *c03env) judge(c *Ctx, idx int, kind string, viaOpts bool, ops []wop) {
 	c.R.NonTrivial(kind, fmt.Sprint(viaOpts), opsString(ops))
 	if len(vs) == 0 {
 		if c.R.WantSample() && len(ops) >= 2 {
-			c.R.Sample(idx, map[string]any{"logger": kind, "via_options": viaOpts, "ops": opsString(ops), "writer_shapes": e.shape}, "all 24 probe forms (15 severities through LogAttrs, 5 through verbs and Print/Println, 4 blank-line forms) were routed as the model says after every operation")
+			c.R.Sample(idx, map[string]any{"logger": kind, "via_options": viaOpts, "ops": opsString(ops), "writer_shapes": e.shape}, "all 29 probe forms (20 severities through LogAttrs, 5 through verbs and Print/Println, 4 blank-line forms) were routed as the model says after every operation")
 		}
 		return
 	}
@@ -613,6 +637,13 @@ func c03alphabet(full bool) []wop {
 		for _, l := range lvls {
 			for _, w := range lw {
 				a = append(a, wop{name: n, w: w, lvl: l})
+			}
+		}
+	}
+	if full {
+		for _, n := range []string{"DeriveWithWriter", "DeriveWithErrorWriter"} {
+			for _, w := range []int{0, 1, 2, 3, 4} {
+				a = append(a, wop{name: n, w: w})
 			}
 		}
 	}
